@@ -42,6 +42,12 @@ CFG = {
         "Swat4.C04.schema_params_pinned",
         "Swat4.C04.facts_ok",
         "Swat4.C04.msg_facts",
+        # which heartbeats are accepted (the postconditions above are conditional on a reply; these say when there is one)
+        "Swat4.C04.heartbeat_accepted_iff",
+        "Swat4.C04.heartbeat_accepted_if",
+        "Swat4.C04.heartbeat_accepted_only_if",
+        "Swat4.C04.accepts_def",
+        "Swat4.C04.heartbeat_without_localport_dropped",
     ],
     "shards": (4, 16),
     "nontrivial": _c04_nontrivial,
